@@ -12,6 +12,13 @@ MOD=$(grep '^+++ b/' $PATCH | head -1 | sed 's#+++ b/##; s#/.*##')
 DEMO=$(ls _seed/*_test.go | head -1)
 # the demonstration lives in the package of the (first) changed file
 DEMOPKG=$(dirname $(grep '^+++ b/' $PATCH | head -1 | sed 's#+++ b/##'))
+# ... unless its package clause names another package of the module
+DPK=$(grep -m1 '^package ' $DEMO | awk '{print $2}' | sed 's/_test$//')
+if ! grep -qs "^package $DPK\b" $DEMOPKG/*.go; then
+  for d in $(find $MOD -type d -not -path '*/.*'); do
+    if ls $d/*.go >/dev/null 2>&1 && grep -qs "^package $DPK\b" $(ls $d/*.go | grep -v _test.go | head -3); then DEMOPKG=$d; break; fi
+  done
+fi
 DEMONAME=$(grep -o 'func Test[A-Za-z0-9_]*' $DEMO | head -1 | sed 's/func //')
 # every test function of the demonstration file (their failures are expected with the change)
 DEMOALL=$(grep -o 'func Test[A-Za-z0-9_]*' $DEMO | sed 's/func //' | paste -sd'|' | sed 's/|/\\|/g')
